@@ -66,8 +66,13 @@ def run(case: dict, lean: Lean) -> Outcome:
             if not (0 <= c < ni): failed.append(f"column {c} out of range")
             elif (r, c) in obs and not warned: failed.append(f"row {r}: column {c} is an observed interaction and no warning was raised")
             if weighting == "popular" and c not in stored: failed.append(f"popularity weighting drew column {c}, which never occurs in the data")
-    plentiful = all(sum(1 for c in range(ni) if (r, c) not in obs) * 2 >= ni for r in rows) and ni >= 4
-    if plentiful and warned and attempts >= 10 and weighting == "uniform": failed.append("warning although every row has plenty of unobserved columns")
+    # "plentiful ⇒ no warning" is a statement about probabilities in the seeded path (the deterministic content — a warning only after a
+    # position used up its whole budget on observed columns — is the theorem `cols_from_draws` / the scripted comparison above).  It is
+    # asserted only where a warning would have probability < 1e-9: positions × (largest observed share)^(budget + 1).
+    if weighting == "uniform" and rows:
+        share = max(sum(1 for c in range(ni) if (r, c) in obs) / ni for r in rows)
+        npos = len(rows) * (case["count"] or 1)
+        if warned and npos * share ** (max(attempts, 1) + 1) < 1e-9: failed.append("warning although unobserved columns are plentiful (a warning had probability < 1e-9)")
     if warned: classes.append("warned")
     if any(all((r, c) in obs for c in range(ni)) for r in rows): classes.append("row without negatives")
     return Outcome(corr, not failed and corr, tuple(classes), {"failed": failed[:6]}, None)
